@@ -6,7 +6,7 @@ from .. import env, attach, gen, flow, solve
 from ..mon_problem import mon_optimize
 
 PROPERTY = 'C03'
-CASES = {'quick': 420, 'thorough': 8000}
+CASES = {'quick': 560, 'thorough': 8000}
 BUDGET_S = {'quick': 150, 'thorough': 1800}
 SUITE_UNDER_MONITORS = True      # thorough tier: the repository's own tests are an extra workload under the passive monitors
 RULE = ('case = one problem pushed through the real OptimProblem.optimize (or SplitOptimProblem.optimize) with a solver choice from '
@@ -19,7 +19,7 @@ ASSUMPTIONS = ['a variable is boolean iff its mapping rows flag it (flags are ge
                'first-order solvers OSQP/SCS are excluded (no sharp solver tolerance)',
                'tolerances: feasibility 1e-6 scaled, value 1e-5 (MIP 2e-4) relative']
 MIN_NONVACUOUS = {'quick': {'opt.rows_U': 100, 'opt.rows_L': 80, 'opt.rows_S': 60, 'opt.rows_N': 100, 'opt.booleans': 60,
-                            'opt.no_better_point': 200, 'opt.failure_means_infeasible': 25, 'opt.value_is_minus_cx': 200},
+                            'opt.no_better_point': 200, 'opt.failure_means_infeasible': 25, 'opt.value_is_minus_cx': 200, 'opt.status_mapping': 400},
                   'thorough': {'opt.rows_U': 2000, 'opt.rows_L': 1500, 'opt.rows_S': 1000, 'opt.rows_N': 2000, 'opt.booleans': 1000,
                                'opt.no_better_point': 4000, 'opt.failure_means_infeasible': 500}}
 LP_SOLVERS = [None, None, 'CLARABEL', 'SCIPY', 'SCIP']
@@ -75,10 +75,65 @@ def synthetic(rng, infeasible=False):
 
 
 def run_case(rng, tier, case):
-    mode = gen.pick(rng, ['portfolio', 'portfolio', 'synthetic', 'synthetic', 'synthetic', 'infeasible', 'portfolio_infeasible', 'split'])
+    mode = gen.pick(rng, ['portfolio', 'portfolio', 'portfolio', 'synthetic', 'synthetic', 'synthetic', 'synthetic', 'infeasible', 'portfolio_infeasible', 'split', 'split',
+                          'repeated', 'repeated', 'scaled'])
     case.feature('mode:' + mode)
+    snap0 = None; scaled = False
     with attach.recording() as rec:
-        if mode in ('synthetic', 'infeasible'):
+        if mode == 'scaled':
+            # a very small asset in the units of a wholesale portfolio (capacities ~1e-6, prices ~1e6): the default LP solver only reaches reduced
+            # accuracy. Here only the status handling is judged: what the solver flags as inaccurate must not be reported as success.
+            scaled = True
+            import pandas as pd
+            from ..spec import build
+            T = int(rng.integers(48, 160))
+            ue = 10 ** -rng.uniform(5, 6.5); up = 1 / ue * 10 ** rng.uniform(-0.3, 0.3)
+            p = 0.5 + 0.2 * np.sin(np.linspace(0, rng.uniform(20, 80), T)) + 0.05 * np.cos(np.linspace(0, 700, T))
+            spec = {'grid': {'start': '2021-01-01 00:00:00', 'end': str(pd.Timestamp('2021-01-01') + pd.Timedelta(hours=T)), 'freq': 'h', 'unit': 'h', 'tz': None},
+                    'assets': [{'type': 'SimpleContract', 'name': 'mkt', 'nodes': ['n0'], 'price': 'p', 'min_cap': -2e7 * ue, 'max_cap': 2e7 * ue, 'extra_costs': 0.},
+                               {'type': 'Storage', 'name': 's', 'nodes': ['n0'], 'size': float(rng.uniform(10, 50)) * ue, 'cap_in': float(rng.uniform(1, 5)) * ue,
+                                'cap_out': float(rng.uniform(1, 5)) * ue, 'eff_in': 0.9, 'start_level': 5 * ue, 'end_level': 5 * ue, 'cost_in': 0.003 * up, 'cost_out': 0.002 * up}],
+                    'prices': {'p': [float(x) for x in p * up]}}
+            case.key = env.spec_key(spec); case.sample = {'scaled_family': True, 'T': T, 'unit_energy': ue, 'unit_price': up}; case.spec = spec
+            r = flow.run_portfolio(spec, do_extract=False, rec=rec)
+            if not r.ok:
+                case.reject(flow.describe_error(r))
+        elif mode == 'repeated':
+            # several optimize calls on the SAME problem object (relaxed first, other solvers, ...): every return is judged against the problem as assembled
+            from ..canon import Snap
+            with env.quiet():
+                if rng.random() < 0.5:
+                    op, desc, mip = synthetic(rng)
+                    case.key = env.spec_key(desc); case.sample = dict(desc); case.spec = case.sample
+                else:
+                    spec = gen.gen_mixed_portfolio(rng, kinds=('storage_mip', 'storage_mip', 'plant', 'orderbook', 'contract', 'storage'), grid_kw={'steps': (4, 14)}, n_assets=(1, 3), n_nodes=(1, 2))
+                    for a in spec['assets']:
+                        if a['type'] == 'OrderBook':
+                            a['full_exec'] = True
+                    case.key = env.spec_key(gen.strip_private(spec)); case.sample = gen.abbreviate(spec); case.spec = spec
+                    rr = flow.run_portfolio(spec, do_optimize=False, rec=rec)
+                    if not rr.ok:
+                        case.reject(flow.describe_error(rr)); op = None
+                    else:
+                        op = rr.op; mip = gen.is_mip(spec)
+                if op is not None:
+                    snap0 = Snap(op)
+                    calls = []
+                    for _ in range(int(rng.integers(2, 4))):
+                        kw = {}
+                        sv = gen.pick(rng, MIP_SOLVERS[:3] if mip else LP_SOLVERS)      # (SCIPY on MIPs: known finding F23, kept out of the repeated-call mode)
+                        if sv: kw['solver'] = sv
+                        if mip and rng.random() < 0.4: kw['make_soft_problem'] = True
+                        calls.append(kw)
+                    if mip and not any(c.get('make_soft_problem') for c in calls[:-1]) and rng.random() < 0.6:
+                        calls[0]['make_soft_problem'] = True
+                    case.sample = dict(case.sample, calls=calls) if isinstance(case.sample, dict) else case.sample
+                    for kw in calls:
+                        try:
+                            op.optimize(**kw)
+                        except Exception as e:
+                            case.reject('optimize raised %s: %s' % (type(e).__name__, str(e)[:150])); break
+        elif mode in ('synthetic', 'infeasible'):
             with env.quiet():
                 op, desc, mip = synthetic(rng, infeasible=(mode == 'infeasible'))
                 solver = gen.pick(rng, MIP_SOLVERS if mip else LP_SOLVERS)
@@ -117,7 +172,7 @@ def run_case(rng, tier, case):
     nontrivial = False
     for ev in rec.of('optimize'):
         before = sum(case.stats[k] for k in list(case.stats) if k.startswith('binding_'))
-        mon_optimize(case, ev, time_limit=20.)
+        mon_optimize(case, ev, time_limit=20., scaled_only=scaled, snap_override=snap0)
         after = sum(case.stats[k] for k in list(case.stats) if k.startswith('binding_'))
         if isinstance(ev.ret, str) or after > before:
             nontrivial = True
